@@ -1790,3 +1790,9 @@ def normal_form(fn, callee_info=None, consts=None):
 def nf_key(fn, callee_info=None, consts=None):
     c = normal_form(fn, callee_info, consts)
     return ast.dump(c, include_attributes=False)
+
+
+def canon_expr(e):
+    """A normalised private copy of an expression (comparison direction, folded negations, De Morgan, spellings): for rules that match
+    the shape of a test."""
+    return _E1(None).visit(clone(e))
